@@ -6,8 +6,8 @@ export VERIF_CACHE_MAX=60
 ALL="C01 C02 C03 C04 C05 C06 C07 C08 C09 C10 C11 C12 C13 C14 C15 C16 C17 C18 C19 C20"
 case "$1" in
 make)
-  rm -rf /tmp/bn; mkdir -p /tmp/bn
-  for d in /verif/benign/*.diff; do n=$(basename $d .diff); mkdir -p /tmp/bn/$n; rsync -a --exclude target --exclude .git /repo/ /tmp/bn/$n/repo/; (cd /tmp/bn/$n/repo && patch -p1 -s -f --no-backup-if-mismatch -i $d) || echo "APPLY FAIL $n"; done;;
+  mkdir -p /tmp/bn
+  for d in /verif/benign/*.diff /verif/benign/small/*.diff; do n=$(basename $d .diff); [ -d /tmp/bn/$n ] && continue; mkdir -p /tmp/bn/$n; rsync -a --exclude target --exclude .git /repo/ /tmp/bn/$n/repo/; (cd /tmp/bn/$n/repo && patch -p1 -s -f --no-backup-if-mismatch -i $d) || echo "APPLY FAIL $n"; done;;
 run)
   n=$2; shift 2
   for p in "$@"; do VERIF_REPO=/tmp/bn/$n/repo VERIF_EVIDENCE_DIR=/tmp/bn/$n/ev /verif/check $p 2>&1 | grep -E "^  rule=|^C[0-9]+:|Traceback|Error" | cut -c1-${W:-300}; done;;
